@@ -323,3 +323,11 @@ Proof.
   exists demo_db, (restrict 1 demo_db). split; [exact demo_wf|]. split; [apply wf_restrict, demo_wf|].
   split; [symmetry; apply restrict_idem|]. cbn. discriminate.
 Qed.
+
+(* a listing answers with rows of the asking project only, and with all of them *)
+Lemma list_proj_scoped P t d r : In r (list_proj P t d) <-> In r d /\ r_tbl r = t /\ r_proj r = P.
+Proof.
+  unfold list_proj. rewrite filter_In, andb_true_iff, N.eqb_eq.
+  assert (tbl_eqb (r_tbl r) t = true <-> r_tbl r = t) as -> by (destruct (r_tbl r), t; cbn; split; congruence).
+  tauto.
+Qed.
